@@ -181,7 +181,7 @@ func account(c Case, n int, failed bool) {
 }
 
 func TestAppend(t *testing.T) {
-	to := jgen.TypeOpts{MaxDepth: 3, Avoid: map[string]bool{"duration": true}}
+	to := jgen.TypeOpts{MaxDepth: 3, Durations: true}
 	vo := jgen.ValOpts{BigSlice: true}
 	evid.Check(t, "Append", 12000, func(rt *rapid.T) {
 		var td jgen.TypeDesc
